@@ -349,5 +349,29 @@ def r6_command_verbatim(chk: Check) -> None:
         chk.undecided("C09.R6", fn, "uses of `curl`", "the command is not embedded through a call (formatter) any more", fn.loc())
 
 
+def r7_real_headers_merged_in_full(chk: Check) -> None:
+    chk.rule("C09.R7", "NO-FILTER(headers of the real request -> command): the command is prepared by prepare_headers(case, headers) with the headers of the request that was really sent; they are merged over the case's own headers AS A WHOLE (`final_headers.update(headers)`) - a filtered copy (`{k: v for ... if v}`) drops headers whose value is falsy, i.e. the empty-valued ones (`X-Debug:`), which curl can and the command must send (`-H 'X-Debug;'`)", floor=1)
+    P = chk.project
+    fn = P.func("transport/prepare.py:prepare_headers")
+    ps = params_of(fn.node)
+    ups = [c for c in body_calls(fn) if last_attr(c) == "update" and c.args]
+    if not ups:
+        chk.undecided("C09.R7", fn, "the caller's headers are merged with update()", "no update() call", fn.loc())
+        return
+    for c in ups:
+        a = c.args[0]
+        construct = f"`{unparse(c, 60)}` merges the given headers as a whole"
+        if isinstance(a, ast.Name) and a.id in ps:
+            chk.ok("C09.R7", fn, construct, "", fn.loc(c))
+        elif isinstance(a, (ast.DictComp, ast.GeneratorExp, ast.ListComp)) and any(g.ifs for g in a.generators):
+            chk.violation("C09.R7", fn, construct,
+                          f"only the entries passing `{unparse(a.generators[0].ifs[0], 40)}` are merged: a header that was sent with an empty value (a session header `X-Debug: `, CLI `-H 'X-Debug:'`) and is not one of the case's own headers disappears from the `Reproduce with` command",
+                          fn.loc(c))
+        elif isinstance(a, ast.Call) and isinstance(a.func, ast.Name) and a.func.id in ("dict", "CaseInsensitiveDict") and len(a.args) == 1 and isinstance(a.args[0], ast.Name) and a.args[0].id in ps:
+            chk.ok("C09.R7", fn, construct, "copied as a whole", fn.loc(c))
+        else:
+            chk.undecided("C09.R7", fn, construct, "argument not recognised", fn.loc(c))
+
+
 def rules(tier: str) -> list:  # type: ignore[type-arg]
-    return [r1_shell_quoting, r2_real_headers, r3_filter_headers, r5_curl_argument_semantics, r6_command_verbatim]
+    return [r1_shell_quoting, r2_real_headers, r3_filter_headers, r5_curl_argument_semantics, r6_command_verbatim, r7_real_headers_merged_in_full]
